@@ -48,8 +48,8 @@ size_t g_ai;       /* arbitrary attribute index ("for all attributes") */
 
 #define XML_GHOST_RESET() do { GHOST_RESET(); g_on = false; g_enf = XF_NONE; g_cb_room = false; } while (0)
 
-/* the document object (possibly of size 0: then every access is flagged).  The NULL-with-zero-length view is a separate,
- * concrete unit (xml_parse_null_doc). */
+/* the document object (possibly of size 0: then every access is flagged).  The NULL-with-zero-length document is run by the native
+ * unit xml_arbitrary_native only. */
 #define DOC_OK (g_doc_len < VERIF_HUGE && __CPROVER_is_fresh(g_doc, g_doc_len))
 /* c (a struct aws_byte_cursor lvalue) lies inside the document */
 #define IN_DOC(c) (SAME((c).ptr, g_doc) && POFF((c).ptr) <= g_doc_len && (c).len <= g_doc_len - POFF((c).ptr))
